@@ -128,6 +128,35 @@ gd_.switch()
 g = greenlet.greenlet(lambda: None)
 leg.case("unstarted", True)
 if stackscope.extract(g).frames: leg.violation("unstarted", "an unstarted greenlet yields frames")
+# the CURRENT non-main greenlet asks about itself while its immediate parent is not a live suspended greenlet (never started /
+# already dead / dead below a live grandparent): exactly its own portion, whatever state the parent is in (added after seed
+# C15-parent-gr-frame-none-treated-as-main)
+def _self_ask(depth, box):
+    if depth:
+        return _self_ask(depth - 1, box)
+    box["st"] = stackscope.extract(greenlet.getcurrent()); box["truth"] = chain_from(sys._getframe(0))
+def _own_entry(depth, box):
+    return _self_ask(depth, box)
+def parent_states():
+    out = {}
+    b = {}; greenlet.greenlet(_own_entry).switch(2, b); out["suspended-main-parent"] = b
+    unstarted = greenlet.greenlet(lambda *a: None)
+    b = {}; greenlet.greenlet(_own_entry, parent=unstarted).switch(1, b); out["never-started-parent"] = b
+    keep = {}
+    def short_lived(): keep["child"] = greenlet.greenlet(_own_entry)
+    d = greenlet.greenlet(short_lived); d.switch()
+    b = {}; keep["child"].switch(3, b); out["dead-parent"] = b
+    def grandparent():
+        d2 = greenlet.greenlet(short_lived); d2.switch()
+        b2 = {}; keep["child"].switch(0, b2); out["dead-parent-below-live-grandparent"] = b2
+    greenlet.greenlet(grandparent).switch()
+    return out
+for tag, b in parent_states().items():
+    leg.case(("current-greenlet-asks-about-itself", tag), True)
+    st = b.get("st")
+    if st is None or st.error is not None or [f.pyframe for f in st.frames] != b["truth"]:
+        leg.violation(("current-greenlet-asks-about-itself", tag), f"extract(getcurrent()) inside a greenlet with a {tag}: {names(st) if st else None}, expected exactly its own "
+                                                                   f"{len(b.get('truth') or [])} frames; error={getattr(st, 'error', None)!r}")
 # main greenlet asking about itself: the whole running stack down to here
 leg.case("main-current", True)
 st = stackscope.extract(greenlet.getcurrent())
